@@ -248,8 +248,19 @@ def blockInts (b : Block) : List Bool := (List.range b.cols.length).map (colNume
 
 /-! ### writer -/
 
-/-- `'{:<10}'.format(s)` -/
-def padCell (w : Word) : List Char := w ++ List.replicate (Gen.C02.cellWidth - w.length) ' '
+/-- the fill character of the format spec of `format_value` (none written = a blank) -/
+def fillChar : Char := Gen.C02.cellFill.headD ' '
+
+/-- `'{:<10}'.format(s)`, with the format spec READ FROM THE SOURCE (`Gen.C02.cellFill`, `cellAlign`,
+`cellWidth`): the cell is padded with the fill character to the width — on the right for `<` (the
+documented one), on the left for `>`, on both sides for `^`, never cut. An edit of the format spec
+changes what the model prints (lemma `padCell_eq` is where the documented spec enters the proofs). -/
+def padCell (w : Word) : List Char :=
+  let k := Gen.C02.cellWidth - w.length
+  match Gen.C02.cellAlign with
+  | ['>'] => List.replicate k fillChar ++ w
+  | ['^'] => List.replicate (k / 2) fillChar ++ w ++ List.replicate (k - k / 2) fillChar
+  | _ => w ++ List.replicate k fillChar
 
 def sepJoin (sep : List Char) : List (List Char) → List Char
   | [] => []
